@@ -297,12 +297,14 @@ def run_history(sdesc: dict[str, Any], cdesc: dict[str, Any], script: list[list[
     th.join(deadline)
     if th.is_alive():
         result["hung"] = True
-        # unblock both sides so the threads do not leak
-        with contextlib.suppress(Exception):
-            ct.close()
-        with contextlib.suppress(Exception):
-            st.close()
-        th.join(2)
+        # unblock both sides so the threads do not leak — by ending the outgoing directions only: closing a reader another
+        # thread is blocked in would wait for that read (and hang the harness)
+        from harness.common.c05util import unblock
+
+        unblock(ct)
+        sth.join(3)
+        unblock(st)
+        th.join(3)
     sth.join(5)
     result["server_alive_after"] = sth.is_alive()
     result["trace"] = [list(t) for t in trace]
